@@ -49,10 +49,17 @@ contract(CM + 'update_all_cluster_statistics', props=['C12', 'C13', 'C09', 'C19'
                    "forall(0, len(model.clusters), lambda k: " + _STATS_OF.format(new='result.clusters[k]', old='model.clusters[k]') + ")"),
                   ("state-given-is-not-altered", "unchanged(model, model.clusters, model._point_labels, training_data) and "
                    "forall(0, len(model.clusters), lambda k: unchanged(model.clusters[k], model.clusters[k]._member_points))"),
-                  "wf(result)"],
+                  ("wf:labels-in-range", "forall(0, len(result._point_labels), lambda p: 0 <= result._point_labels[p] and result._point_labels[p] < result.arguments.num_clusters)"),
+                  ("wf:K-clusters", "len(result.clusters) == result.arguments.num_clusters"),
+                  ("wf:membership", "membership_ok(result)"),
+                  ("wf:distinct", "distinct_clusters(result)"),
+                  ("wf", "wf(result)")],
          loops={1: dict(inv=[], modifies=['cluster_members']),
                 2: dict(inv=["len(updated_model.clusters) == len(model.clusters)",
                              ] + _each('0', 'cluster_id', 'updated_model.clusters[k]', 'model.clusters[k]') + [
-                             "forall(cluster_id, len(model.clusters), lambda k: same(updated_model.clusters[k], model.clusters[k]))"],
-                        lemmas_end=[p.format(new='updated_model.clusters[cluster_id]', old='model.clusters[cluster_id]') for p in _STATS_PARTS[:2]],
+                             "forall(cluster_id, len(model.clusters), lambda k: same(updated_model.clusters[k], model.clusters[k]))",
+                             "forall(0, cluster_id, lambda k: allocated(updated_model.clusters[k]))",
+                             "forall(lambda k1, k2: implies(0 <= k1 and k1 < k2 and k2 < cluster_id, not same(updated_model.clusters[k1], updated_model.clusters[k2])))",
+                             "forall(0, cluster_id, lambda k: members_ok(updated_model.clusters[k]._member_points, model._point_labels, k))"],
+                        lemmas_end=["members_ok(updated_model.clusters[cluster_id]._member_points, model._point_labels, cluster_id)"] + [p.format(new='updated_model.clusters[cluster_id]', old='model.clusters[cluster_id]') for p in _STATS_PARTS[:2]],
                         modifies=['ref:updated_model.clusters'])})
